@@ -1,7 +1,7 @@
 // fsmx_machine.hpp -- the scripted FFSM2 machine under exploration.
 // One translation unit per configuration; everything is selected by -D:
 //   VX_N (1..4) states, VX_HEAD (1 Root with scripted head / 0 PeerRoot), VX_MANUAL, VX_PAYLOAD (0|1|4|16|32 bytes),
-//   VX_L substitution limit, VX_CAP task capacity (0 = library default), VX_CTX (0 empty|1 value|2 reference|3 pointer),
+//   VX_L substitution limit, VX_CAP task capacity (0 = library default), VX_CTX (0 empty|1 value|2 reference|3 pointer|4 value handed over as an rvalue),
 //   VX_INJ_R / VX_INJ_S0..S3 number of injections on the root / on state i, VX_BARE (last state defines no callbacks),
 //   VX_DEV_HEADER (include development/ffsm2/machine_dev.hpp instead of the shipped single header),
 //   and the library's own FFSM2_ENABLE_* switches.
@@ -59,6 +59,9 @@
 #endif
 #ifndef VX_TFORM
 #define VX_TFORM 0        // 1: every call that has a type-parameterised overload (changeTo<T>(), succeed<T>(), plan.change<A, B>(), isActive<T>() ...) uses it; 2: plans use the half form change<A>(id)
+#endif
+#ifndef VX_HEAD_PLANCB
+#define VX_HEAD_PLANCB 3  // which plan-outcome callbacks the root head defines: bit 0 planSucceeded, bit 1 planFailed
 #endif
 #ifndef VX_BARE
 #define VX_BARE 0
@@ -133,7 +136,7 @@ struct Ctx { int v; };
 static Ctx g_ctx{7};
 #if VX_CTX == 0
 using ContextArg = ffsm2::EmptyContext;
-#elif VX_CTX == 1
+#elif VX_CTX == 1 || VX_CTX == 4
 using ContextArg = Ctx;
 #elif VX_CTX == 2
 using ContextArg = Ctx&;
@@ -309,9 +312,19 @@ template <typename SELF, typename BASE> bool thisok(const BASE* self);
 	void exit(PlanControl& c) { visit_life(c, SID, INJ, M_EXIT, VX_THISOK(SELF, BASE)); }
 
 #if VX_PLANS
+#if VX_HEAD_PLANCB == 3
 #define VX_PLAN_CALLBACKS(SELF, BASE, SID, INJ) \
 	void planSucceeded(FullControl& c) { visit_full(c, SID, INJ, M_PLAN_OK, VX_THISOK(SELF, BASE), nullptr); } \
 	void planFailed(FullControl& c) { visit_full(c, SID, INJ, M_PLAN_FAIL, VX_THISOK(SELF, BASE), nullptr); }
+#elif VX_HEAD_PLANCB == 1
+#define VX_PLAN_CALLBACKS(SELF, BASE, SID, INJ) \
+	void planSucceeded(FullControl& c) { visit_full(c, SID, INJ, M_PLAN_OK, VX_THISOK(SELF, BASE), nullptr); }
+#elif VX_HEAD_PLANCB == 2
+#define VX_PLAN_CALLBACKS(SELF, BASE, SID, INJ) \
+	void planFailed(FullControl& c) { visit_full(c, SID, INJ, M_PLAN_FAIL, VX_THISOK(SELF, BASE), nullptr); }
+#else
+#define VX_PLAN_CALLBACKS(SELF, BASE, SID, INJ)
+#endif
 #else
 #define VX_PLAN_CALLBACKS(SELF, BASE, SID, INJ)
 #endif
@@ -338,6 +351,7 @@ template <int I> struct St : StBase<I, INJ_OF[I]>::Type {
 	using GuardControl = typename Base::GuardControl; using PlanControl = typename Base::PlanControl;
 	using FullControl = typename Base::FullControl; using ConstControl = typename Base::ConstControl;
 	VX_CALLBACKS(St<I>, St<I>, I, 0)
+	uint8_t vx_entered = 0;   // user data kept in the state object: set by enter(), reset by exit() (observed at every callback; a copy must carry it)
 };
 #if VX_SPARSE >= 0
 template <> struct St<VX_SPARSE> : StBase<VX_SPARSE, INJ_OF[VX_SPARSE]>::Type {
@@ -349,8 +363,11 @@ template <> struct St<VX_SPARSE> : StBase<VX_SPARSE, INJ_OF[VX_SPARSE]>::Type {
 	void update(FullControl& c) { visit_full(c, VX_SPARSE, 0, M_UPDATE, VX_THISOK(St<VX_SPARSE>, St<VX_SPARSE>), nullptr); }
 	void exit(PlanControl& c) { visit_life(c, VX_SPARSE, 0, M_EXIT, VX_THISOK(St<VX_SPARSE>, St<VX_SPARSE>)); }
 #endif
+	uint8_t vx_entered = 0;
 };
 #endif
+// does the root head define the plan-outcome callback?
+inline bool head_defines_outcome(int meth) { return VX_HEAD && ((meth == M_PLAN_OK && (VX_HEAD_PLANCB & 1)) || (meth == M_PLAN_FAIL && (VX_HEAD_PLANCB & 2))); }
 // does the state class itself (not one of its injections) define this callback?
 inline bool own_defined(int sid, int meth) { return sid != VX_SPARSE || (VX_SPARSE_SHAPE == 2 && (meth == M_ENTER || meth == M_UPDATE || meth == M_EXIT)); }
 
@@ -361,6 +378,7 @@ struct Rt : RtBase<INJ_ROOT>::Type {
 	using FullControl = Base::FullControl; using ConstControl = Base::ConstControl;
 	VX_CALLBACKS(Rt, Rt, ROOT, 0)
 	VX_PLAN_CALLBACKS(Rt, Rt, ROOT, 0)
+	uint8_t vx_entered = 0;
 };
 #endif
 #if VX_BARE
@@ -470,6 +488,19 @@ template <typename C> inline bool is_active_of(C& c, int k) {
 #endif
 }
 
+// the datum the harness keeps in the state objects themselves (null for the state type without members)
+template <typename T> inline auto mark_ptr_of(T& st, int) -> decltype(&st.vx_entered) { return &st.vx_entered; }
+template <typename T> inline uint8_t* mark_ptr_of(T&, long) { return nullptr; }
+struct TF_Mark { template <typename T> static void go(Inst& m, uint8_t*& out) { out = mark_ptr_of(m.template access<T>(), 0); } };
+inline uint8_t* state_mark(Inst& m, uint8_t sid) {
+	uint8_t* out = nullptr;
+#if VX_HEAD
+	if (sid == ROOT) return mark_ptr_of(m.template access<Rt>(), 0);
+#endif
+	if (sid < N) tdispatch<TF_Mark>(sid, m, out);
+	return out;
+}
+
 // MSan builds: a task slot that is not part of the plan holds no live task. The next emplace() starts a new object there, so whatever
 // its payload members held before is indeterminate from then on; poisoning them lets MemorySanitizer see a constructor that
 // leaves one of them unwritten (the bytes are otherwise "initialised" by the previous occupant).
@@ -493,6 +524,7 @@ template <typename C>
 inline void obs_common(Ev& e, C& c) {
 	Inst* m = curInst();
 	poison_vacant(*m);
+	if (uint8_t* mk = state_mark(*m, e.sid)) { if (*mk) e.ctl |= 0x40; if (!e.inj && e.meth == M_ENTER) *mk = 1; if (!e.inj && e.meth == M_EXIT) *mk = 0; }
 	e.ctl_sid = c.stateId();
 	uint8_t cm = 0, mm = 0;
 	for (int k = 0; k < N; ++k) { if (is_active_of(c, k)) cm |= static_cast<uint8_t>(1u << k); if (is_active_of(*m, k)) mm |= static_cast<uint8_t>(1u << k); }
@@ -692,7 +724,11 @@ inline void visit_const(C& c, uint8_t sid, uint8_t inj, uint8_t meth, bool thiso
 	obs_common(e, c);
 }
 
-template <typename SELF, typename BASE> inline bool thisok(const BASE* self) { return static_cast<const void*>(self) == static_cast<const void*>(static_cast<const BASE*>(&curInst()->template access<SELF>())); }
+template <typename SELF, typename BASE> inline bool thisok(const BASE* self) {
+	const Inst* cm = curInst();   // the const overload of access<T>() must name the same object
+	return static_cast<const void*>(self) == static_cast<const void*>(static_cast<const BASE*>(&curInst()->template access<SELF>()))
+		&& static_cast<const void*>(&cm->template access<SELF>()) == static_cast<const void*>(&curInst()->template access<SELF>());
+}
 
 // --------------------------------------------------------------------------- logger
 #if VX_LOG
@@ -727,6 +763,8 @@ inline void construct(int slot, uint8_t prefill, bool withLogger) {
 	new (g_slot[slot].bytes) Inst(lg);
 #elif VX_CTX == 3
 	new (g_slot[slot].bytes) Inst(&g_ctx, lg);
+#elif VX_CTX == 4
+	new (g_slot[slot].bytes) Inst(Ctx(g_ctx), lg);
 #else
 	new (g_slot[slot].bytes) Inst(g_ctx, lg);
 #endif
@@ -735,6 +773,8 @@ inline void construct(int slot, uint8_t prefill, bool withLogger) {
 	new (g_slot[slot].bytes) Inst();
 #elif VX_CTX == 3
 	new (g_slot[slot].bytes) Inst(&g_ctx);
+#elif VX_CTX == 4
+	new (g_slot[slot].bytes) Inst(Ctx(g_ctx));
 #else
 	new (g_slot[slot].bytes) Inst(g_ctx);
 #endif
@@ -819,6 +859,11 @@ inline void read_abs(Inst& m, Abs& a) {
 		auto p = m.plan(); int n = 0; a.planbool = static_cast<bool>(p);
 		for (auto it = p.begin(); it; ++it) { if (n < MAXPLAN) a.plan[n] = rd_task(*it); ++n; }
 		a.planlen = static_cast<uint8_t>(n);
+		{ // the read-only view a const machine offers must agree: emptiness test and the tasks its iteration yields
+			const Inst& cm = m; auto cp = cm.plan(); int cn = 0; bool same = static_cast<bool>(cp) == static_cast<bool>(p);
+			for (auto it = cp.begin(); it; ++it) { if (cn < MAXPLAN && cn < n && !(rd_task(*it) == a.plan[cn])) same = false; ++cn; if (cn > MAXPLAN + 2) break; }
+			if (cn != n) same = false;
+			if (!same) a.planbool = 2; }
 		for (int k = 0; k < N; ++k) { if (m._core.planData.tasksSuccesses.get(k)) a.succ |= static_cast<uint8_t>(1u << k); if (m._core.planData.tasksFailures.get(k)) a.fail |= static_cast<uint8_t>(1u << k); }
 		memcpy(&a.exists, &m._core.planData.planExists, 1);
 	}
